@@ -1,6 +1,7 @@
 import DeriveExModel.Props.C02
 import DeriveExModel.Props.C10
 import DeriveExModel.Props.C11
+import DeriveExModel.Props.C06
 /-
 C12 — without helper attributes derive_ex is a drop-in for the standard derives.
 Corollaries of C01 / C06 / C10 / C11 for attribute-free items: the documented rule, with no
@@ -101,5 +102,83 @@ theorem plain_debug_is_std (ident : String) (src : Fields) (fields : List FieldE
 /-- `Default` without `#[default(..)]` on the field: `Default::default()` of the field type -/
 theorem plain_default_is_std (f : FieldE) (hp : f.h.dflt = none) : docFieldDefault f = .dflt f.field.ty := by
   simp [docFieldDefault, hp]
+
+/-! ### the whole item
+
+The standard derives' rule, written out: values of different variants are unequal / ordered by declaration position;
+otherwise the fields decide, every one of them, through its own impl.  For an item without comparison helper
+attributes `derive_ex` is never the one to refuse, and the impls it generates compute exactly this. -/
+
+/-- no field of the item carries a comparison helper attribute -/
+def Source.Plain : Source → Prop
+  | .struct_ _ _ fields => ∀ f ∈ fields, PlainCmp f
+  | .enum_ _ _ variants => ∀ v ∈ variants, ∀ f ∈ v.fields, PlainCmp f
+
+theorem Source.Plain.fieldsOf {src : Source} (hp : src.Plain) (i : Nat) : ∀ f ∈ src.fieldsOf i, PlainCmp f := by
+  cases src with
+  | struct_ name g fields => exact hp
+  | enum_ name g variants =>
+    intro f hf
+    simp only [Source.fieldsOf] at hf
+    cases hv : variants[i]? with
+    | none => simp [hv] at hf
+    | some v =>
+      simp only [hv] at hf
+      exact hp v (List.mem_of_getElem? hv) f hf
+
+def stdEq {V F} (src : Source) (σ : Env V F) (a b : Val V) : Bool :=
+  if src.isEnum && a.variant != b.variant then false
+  else (src.fieldsOf a.variant).all fun f => (σ f).eq (a.field f.index) (b.field f.index)
+
+def stdPartialCmp {V F} (src : Source) (σ : Env V F) (a b : Val V) : Option Ordering :=
+  if src.isEnum && a.variant != b.variant then some (compare a.variant b.variant)
+  else firstNonEqOpt ((src.fieldsOf a.variant).map fun f => (σ f).pcmp (a.field f.index) (b.field f.index))
+
+def stdCmp {V F} (src : Source) (σ : Env V F) (a b : Val V) : Ordering :=
+  if src.isEnum && a.variant != b.variant then compare a.variant b.variant
+  else firstNonEq ((src.fieldsOf a.variant).map fun f => (σ f).cmp (a.field f.index) (b.field f.index))
+
+def stdHashFeed {V F} (src : Source) (σ : Env V F) (a : Val V) : List F :=
+  (src.fieldsOf a.variant).flatMap fun f => (σ f).hash (a.field f.index)
+
+/-- an attribute-free item is never refused, whichever comparison trait is derived -/
+theorem plain_item_accepted (t : CmpOp) (src : Source) (e : Entry) (h : HAttrs) (hp : src.Plain) :
+    ∃ c, buildCmp t src e h = .ok c := by
+  have hm : src.misused t = false := by
+    cases src with
+    | struct_ name g fields => exact plain_accepted t fields hp
+    | enum_ name g variants =>
+      simp only [Source.misused, List.any_eq_false]
+      intro v hv
+      simp [plain_accepted t v.fields (hp v hv)]
+  have := buildCmp_doc t src e h
+  rw [hm] at this
+  cases hb : buildCmp t src e h with
+  | ok c => exact ⟨c, rfl⟩
+  | error _ => rw [hb] at this; simp [Except.map] at this
+
+theorem plain_item_eq {V F} (src : Source) (e : Entry) (h : HAttrs) (c : CmpImpl)
+    (hb : buildCmp .partialEq src e h = .ok c) (hp : src.Plain) (σ : Env V F) (a b : Val V) (ha : src.ValidVal a) :
+    evalEq c σ a b = stdEq src σ a b := by
+  rw [eq_follows_doc src e h c hb σ a b ha]
+  simp only [docEq, stdEq, plain_eq_is_std σ a b _ (hp.fieldsOf a.variant)]
+
+theorem plain_item_partial_cmp {V F} (src : Source) (e : Entry) (h : HAttrs) (c : CmpImpl)
+    (hb : buildCmp .partialOrd src e h = .ok c) (hp : src.Plain) (σ : Env V F) (a b : Val V) (ha : src.ValidVal a) :
+    evalPartialCmp c σ a b = stdPartialCmp src σ a b := by
+  rw [partial_cmp_follows_doc src e h c hb σ a b ha]
+  simp only [docPartialCmp, stdPartialCmp, plain_pcmp_is_std σ a b _ (hp.fieldsOf a.variant)]
+
+theorem plain_item_cmp {V F} (src : Source) (e : Entry) (h : HAttrs) (c : CmpImpl)
+    (hb : buildCmp .ord src e h = .ok c) (hp : src.Plain) (σ : Env V F) (a b : Val V) (ha : src.ValidVal a) :
+    evalCmp c σ a b = stdCmp src σ a b := by
+  rw [cmp_follows_doc src e h c hb σ a b ha]
+  simp only [docCmp, stdCmp, plain_cmp_is_std σ a b _ (hp.fieldsOf a.variant)]
+
+theorem plain_item_hash {V F} (src : Source) (e : Entry) (h : HAttrs) (c : CmpImpl)
+    (hb : buildCmp .hash src e h = .ok c) (hp : src.Plain) (σ : Env V F) (a : Val V) (ha : src.ValidVal a) :
+    evalHash c σ a = stdHashFeed src σ a := by
+  rw [feed_follows_doc src e h c hb σ a ha]
+  simp only [docHashFeed, stdHashFeed, plain_hash_is_fieldwise σ a _ (hp.fieldsOf a.variant)]
 
 end DX
